@@ -300,7 +300,7 @@ def ff_specialized_command(repo, res, rule="FF"):
             if g["k"] == "Arm":
                 mt = pm[id(g)][0]
                 p = A.resolve(mt["scrut"], envs.get(id(mt)))
-                res.check(p[0] == "param" and p[2] == "shell", "ARMS", f"ARMS:{fq}:scrutinee", f"arms selected by {A.show(p)}", f"{fn.file}:{mt['l']}")
+                res.check(p[0] == "param" and isinstance(p[1], int) and p[1] < len(fn.params) and "Shell" in (fn.params[p[1]].get("ty") or ""), "ARMS", f"ARMS:{fq}:scrutinee", f"arms selected by {A.show(p)}", f"{fn.file}:{mt['l']}")
 
 
 def arms_builtin(repo, res, rule="ARMS"):
